@@ -686,6 +686,12 @@ def C16(ctx):
         if r["end"] != "ok":
             raise tlc.ToolError(f"isolation base program does not complete: {a.get('name')} {r['end']} {r['msg']}")
     core.validate_traces(ctx, A, ref, label="trace_solo")
+    # no clock / view of an earlier iteration is visible in a later one: over all iterations the result set is the
+    # reference set (a leaked view over-synchronises later iterations and loses outcomes)
+    lowerA, upperA = core.lower_upper(ctx, A, families.has_sc_access)
+    for a, lo, up, r in zip(A, lowerA, upperA, ref):
+        wv = ("sound", "fails") if "yield" in families.ops_of(a) or any(i["op"] == "lzget" for th in a["threads"] for i in th) else ("complete", "sound", "fails")
+        core.compare_sandwich(ctx, a, lo, up, r, want=wv)
 
     def same(x, y):
         return x["end"] == y["end"] and x["iters"] == y["iters"] and x["seq"] == y["seq"] and x["seq_keys"] == y["seq_keys"] \
